@@ -31,7 +31,7 @@ import (
 // Codes of RFC 5246 s7.4.1.4.1.
 const (
 	hashNone, hashMD5, hashSHA1, hashSHA224, hashSHA256, hashSHA384, hashSHA512 = 0, 1, 2, 3, 4, 5, 6
-	sigAnon, sigRSA, sigDSA, sigECDSA                                          = 0, 1, 2, 3
+	sigAnon, sigRSA, sigDSA, sigECDSA                                           = 0, 1, 2, 3
 )
 
 // refErr is a refusal of the reference verifier; Reason is a stable mechanism label.
